@@ -73,9 +73,14 @@ class Ctx:
         return bool(ok)
 
     def floor(self, rule: str, minimum: int, what: str = "instances") -> None:
-        """Vacuity control: rule must have produced at least `minimum` obligations."""
+        """Vacuity control: the rule must still find (most of) the constructs it was confirmed on.
+
+        `minimum` is the number of instances confirmed by hand on the reference tree; the floor that is enforced is 75 % of
+        it (at least 1): a legitimate change that removes a send site or merges two stores must not break the check, while
+        a rule that lost its anchors (matches a fraction of what it did, or nothing) must not pass vacuously."""
         n = sum(1 for o in self.obs if o.rule == rule)
-        self.floors.append((rule, minimum, n, what))
+        eff = max(1, (int(minimum) * 3) // 4)
+        self.floors.append((rule, eff, n, what + f" (confirmed: {minimum})"))
         # evaluated in finish(): a failing obligation (VIOLATION) takes precedence over a missed floor
 
     def note(self, text: str) -> None:
